@@ -211,6 +211,7 @@ class Engine:
         self.nested_impls=collections.defaultdict(list)
         self.closure_index={}
         self.const_index=collections.defaultdict(list)
+        self.custom_cmp={}
         for b in self.bodies:
             self.by_name[b.name].append(b)
             if b.kind=='fn':
@@ -237,6 +238,8 @@ class Engine:
                             ty=last_ident(pt) if pt else ty
                             tr={'next':'Iterator','size_hint':'Iterator','nth':'Iterator','next_back':'DoubleEndedIterator','len':'ExactSizeIterator','clone':'Clone','get':None}.get(meth,tr)
                     self.impl_index[(tr,ty,m.group(2))].append(b)
+                    # hand-written equality / ordering of a type: collections keyed by it must use it (derived ones are structural)
+                    if m.group(1) in self.src.handwritten and (tr,m.group(2)) in (('PartialEq','eq'),('Ord','cmp'),('PartialOrd','partial_cmp')): self.custom_cmp[(tr,ty)]=b
                     if tr=='Error' and m.group(2)=='fmt':       # #[derive(thiserror::Error)] generates the Display impl
                         self.impl_index[('Display',ty,'fmt')].append(b)
                 if re.search(r'\{closure#\d+\}$',b.name) and b.params:
